@@ -14,6 +14,7 @@ let () =
         | "N" -> st := { indx = Z0; hend = Z0; hlen = zi w.(3) }; w.(3)
         | "R" -> let ((s', r), _) = header_read !st (zi w.(1)) (zi w.(2)) in st := s'; Printf.sprintf "%d,%s" (int_of_z r) (show s')
         | "S" -> let (s', _) = seek_set !st (zi w.(1)) (zi w.(2)) in st := s'; show s'
+        | "P" -> let (s', (c, r)) = seek_cur_pipe !st (zi w.(1)) (zi w.(2)) in st := s'; Printf.sprintf "%s,%d,%d" (show s') (int_of_z c) (int_of_z r)
         | _ -> let (s', _) = seek_cur !st (zi w.(1)) (zi w.(2)) in st := s'; show s' in
       let impl = w.(Array.length w - 1) in
       if m <> impl then begin incr bad; if !bad <= 40 then Printf.printf "MISMATCH %s impl=%s model=%s\n" (String.concat " " (Array.to_list (Array.sub w 0 3))) impl m end
